@@ -11,7 +11,7 @@ from simkit import gen, model
 from simkit.harness import HarnessError, World
 from simkit.seam import REAL
 
-TIERS = {"C13": {"quick": 2400, "thorough": 90000}}
+TIERS = {"C13": {"quick": 1600, "thorough": 90000}}
 LEVEL = {"C13": "exploration"}
 RULE = {
     "C13": "history of 5-25 steps over <=12 files (2% of runs: 1000-2100 files for the SQL batch "
@@ -113,6 +113,7 @@ def execute(sc, ctx):
     files = sc["files"]
     cur = {}  # index -> bytes (None = absent)
     saved = {}  # path -> {token: bytes when a row may have been written}
+    row = {}  # path -> (token, bytes) model of the current md5 row
     hits = invalidations = 0
     gen_n = [0]
 
@@ -159,12 +160,18 @@ def execute(sc, ctx):
     ctx.clock.advance(10**9)
 
     def note_saved(paths):
+        """Model of the hash-state row after a query that hashes-and-saves on a
+        miss: a row whose token still matches is a hit and stays as it is."""
         for i in paths:
             if cur.get(i) is not None:
                 try:
-                    saved.setdefault(path(i), {})[token(path(i))] = cur[i]
+                    t = token(path(i))
                 except FileNotFoundError:
-                    pass
+                    continue
+                r = row.get(path(i))
+                if r is None or r[0] != t:
+                    row[path(i)] = (t, cur[i])
+                saved.setdefault(path(i), {}).setdefault(t, cur[i])
 
     def judge(i, name, value, where):
         """A hash of algorithm `name` was returned for file i."""
@@ -183,7 +190,8 @@ def execute(sc, ctx):
             t = token(p)
         except FileNotFoundError:
             return
-        old = saved.get(p, {}).get(t)
+        r = row.get(p)
+        old = r[1] if (r is not None and r[0] == t) else None
         if old is not None and old != cur[i] and value == model.ref_digest("md5", old):
             ctx.probe("invisible_mutation_tolerated")
             return
@@ -245,7 +253,7 @@ def execute(sc, ctx):
                 entry = {"version": state.HASH_VERSION + 1, "checksum": _checksum(info), "size": info["size"],
                          "hash_info": {"md5": "e" * 32}}
                 state.hashes[p] = json.dumps(entry)
-            saved.get(p, {}).pop(token(p), None)
+            row.pop(p, None)
             ctx.probe("injected_" + op["what"])
             continue
         # ---- queries ----------------------------------------------------
